@@ -6,6 +6,18 @@ From Coq Require Import ZifyBool.
 Ltac Zify.zify_post_hook ::= Z.to_euclidean_division_equations.
 Set Default Timeout 60.
 
+Ltac nb := change (nbytes U16) with 2 in *; change (nbytes U24) with 3 in *; change (nbytes U32) with 4 in *;
+           change (Z.to_nat 2) with 2%nat in *; change (Z.to_nat 3) with 3%nat in *; change (Z.to_nat 4) with 4%nat in *.
+
+Ltac pows := change (256 ^ 0) with 1 in *; change (256 ^ 1) with 256 in *; change (256 ^ 2) with 65536 in *;
+             change (256 ^ 3) with 16777216 in *.
+
+Ltac divs := change (8 / 1) with 8 in *; change (8 / 2) with 4 in *; change (8 / 4) with 2 in *; change (8 / 8) with 1 in *;
+             change (16 / 8) with 2 in *; change (24 / 8) with 3 in *; change (32 / 8) with 4 in *.
+
+Section WithUsize.
+Context {U : Usize}.
+
 (* ---- ranges of validity ----------------------------------------------------------------------- *)
 (* every byte of a buffer is an u8 *)
 Definition bytes_ok (buf : list Z) : Prop := Forall (fun b => 0 <= b < 256) buf.
@@ -534,8 +546,6 @@ Proof.
   apply Z.mod_pos_bound. lia.
 Qed.
 
-Ltac nb := change (nbytes U16) with 2 in *; change (nbytes U24) with 3 in *; change (nbytes U32) with 4 in *;
-           change (Z.to_nat 2) with 2%nat in *; change (Z.to_nat 3) with 3%nat in *; change (Z.to_nat 4) with 4%nat in *.
 
 Lemma bytes_ok_encode t alt v : multi_byte t -> bytes_ok (encode_bytes t alt v).
 Proof.
@@ -757,8 +767,6 @@ Definition be_value (buf : list Z) (s n : Z) : Z := zsum (map (fun k => byte_at 
 
 Definition whole_bytes (t : rawty) : Prop := t = U8 \/ multi_byte t.
 
-Ltac pows := change (256 ^ 0) with 1 in *; change (256 ^ 1) with 256 in *; change (256 ^ 2) with 65536 in *;
-             change (256 ^ 3) with 16777216 in *.
 
 Lemma layout_le t buf i :
   whole_bytes t -> bytes_ok buf -> len_ok buf -> 0 <= i < pixels_total t (buf_len buf) ->
@@ -838,8 +846,6 @@ Proof.
 Qed.
 
 (* the bit sets of different pixels are disjoint, and every bit of the used bytes belongs to a pixel *)
-Ltac divs := change (8 / 1) with 8 in *; change (8 / 2) with 4 in *; change (8 / 4) with 2 in *; change (8 / 8) with 1 in *;
-             change (16 / 8) with 2 in *; change (24 / 8) with 3 in *; change (32 / 8) with 4 in *.
 
 Lemma owns_disjoint t alt i j k q : 0 <= i -> 0 <= j -> i <> j -> owns t alt i k q -> ~ owns t alt j k q.
 Proof.
@@ -1124,3 +1130,5 @@ Proof.
   destruct (load_store t alt (raw_new t x) buf i Hb Hl (raw_new_ok t x) Hi) as (b' & S & L & _).
   rewrite S. exact L.
 Qed.
+
+End WithUsize.
